@@ -40,7 +40,7 @@ def builtin_alphabet(kind):
     if kind in ("VisibleString", "ISO646String"):
         return range(32, 127)
     if kind == "BMPString":
-        return range(0, 0x10000)
+        return range(0, 0xfffe)
     if kind == "UniversalString":
         return range(0, 0x80000000)
     return None
